@@ -414,7 +414,25 @@ func (c *PathCtx) call(caller *frame, pos token.Pos, fn Value, args []Value, sit
 	panic(engineErr("cannot call %T", fn))
 }
 
+// callSSA runs the call hooks configured for fn (harness functions executed before /
+// after the real function, natively mirrored by an overlay wrapper) around the call.
 func (c *PathCtx) callSSA(caller *frame, pos token.Pos, fn *ssa.Function, args []Value, env []Value) Value {
+	if len(c.eng.hooks) != 0 && c.lenient == 0 {
+		if hk := c.eng.hookFor(fn); hk != nil {
+			if hk.before != nil {
+				c.callSSA1(caller, pos, hk.before, args, nil)
+			}
+			r := c.callSSA1(caller, pos, fn, args, env)
+			if hk.after != nil {
+				c.callSSA1(caller, pos, hk.after, args, nil)
+			}
+			return r
+		}
+	}
+	return c.callSSA1(caller, pos, fn, args, env)
+}
+
+func (c *PathCtx) callSSA1(caller *frame, pos token.Pos, fn *ssa.Function, args []Value, env []Value) Value {
 	fr := &frame{c: c, caller: caller, fn: fn, callPos: pos}
 	// dispatch: redirect, intrinsic, sink, follow
 	switch c.eng.classify(fn) {
